@@ -43,6 +43,13 @@ func (fc *fnCtx) instr(ins ssa.Instruction, st *State) {
 		i := fc.get(ins.Index)
 		switch u := ins.X.Type().Underlying().(type) {
 		case *types.Slice:
+			if ld, ok := ins.X.(*ssa.UnOp); ok {
+				if g, ok := ld.X.(*ssa.Global); ok && g.Name() == "Typ" && g.Pkg != nil && g.Pkg.Pkg.Path() == "go/types" {
+					fc.safe(st, "index", And(App("<=", "0", i.T), App("<=", i.T, "25")), ins.Pos())
+					fc.vals[ins] = fc.indexAddrSlice(x, u.Elem(), i.T)
+					return
+				}
+			}
 			fc.safe(st, "index", And(App("<=", "0", i.T), App("<", i.T, App("slen", x.T))), ins.Pos())
 			fc.vals[ins] = fc.indexAddrSlice(x, u.Elem(), i.T)
 		case *types.Pointer:
@@ -145,6 +152,19 @@ func (fc *fnCtx) instr(ins ssa.Instruction, st *State) {
 	}
 }
 
+// typesTyp models types.Typ[k] through the pseudo external function go/types.Typ#index.
+func (fc *fnCtx) typesTyp(st *State, k Val, pos token.Pos) Val {
+	tp := fc.g.pkgByPath["go/types"]
+	basic := tp.Scope().Lookup("Basic").Type()
+	ce := &callee{name: "go/types.Typ#index", pkg: tp, external: true, params: []string{"k"}, ptypes: []types.Type{types.Typ[types.Int]}}
+	ce.con = fc.g.CS.ByFunc["ext::go/types.Typ#index"]
+	if ce.con == nil {
+		bail("no contract for go/types.Typ#index")
+	}
+	fc.g.trustedUsed[ce.name] = true
+	return fc.pureApp(ce, ce.con, []Val{k}, types.NewPointer(basic))
+}
+
 func (fc *fnCtx) doAlloc(ins *ssa.Alloc, st *State) {
 	et := ins.Type().Underlying().(*types.Pointer).Elem()
 	r := fc.newRef(st)
@@ -172,6 +192,14 @@ func (fc *fnCtx) doUnOp(ins *ssa.UnOp, st *State) {
 			if v, ok := fc.globalInit(g, st); ok {
 				fc.vals[ins] = v
 				return
+			}
+		}
+		if ia, ok := ins.X.(*ssa.IndexAddr); ok {
+			if ld, ok := ia.X.(*ssa.UnOp); ok {
+				if g, ok := ld.X.(*ssa.Global); ok && g.Name() == "Typ" && g.Pkg != nil && g.Pkg.Pkg.Path() == "go/types" {
+					fc.vals[ins] = fc.typesTyp(st, fc.get(ia.Index), ins.Pos())
+					return
+				}
 			}
 		}
 		v := fc.deref(st, x)
